@@ -45,9 +45,28 @@ PAIRS = {
     'u_common::DynSizedStructure::ref_from_slice': ['k_ref_from_slice'],
 }
 
+COMMON_V_MEM = ['DynSizedStructure::ref_from_bytes', 'DynSizedStructure::ref_from_slice', 'DynSizedStructure::ref_from_ptr',
+                'DynSizedStructure::cast', 'DynSizedStructure::dst_len', 'MaybeDynSized::header', 'MaybeDynSized::payload',
+                'MaybeDynSized::as_bytes', 'MaybeDynSized::as_ptr', 'BytesRef::try_from', 'BytesRef::deref',
+                'TagIter::new', 'TagIter::next', 'Header::total_size', 'increase_to_alignment', 'res_unwrap',
+                'lemma_round8_bv', 'lemma_round8_props', 'lemma_vslice_wf']
+
 PROPS = {
+    'C02': dict(
+        v=[('u_mb2_core', ['BootInformation::load', 'BootInformation::has_valid_end_tag', 'BootInformation::total_size',
+                           'BootInformationHeader::total_size', 'BootInformationHeader::payload_len', 'BootInformationHeader::lemma_hdr_layout',
+                           'DynSizedStructure::ref_from_ptr', 'DynSizedStructure::ref_from_slice', 'DynSizedStructure::ref_from_bytes',
+                           'BytesRef::try_from', 'Header::total_size', 'TagTypeId::eq'])],
+        k_quick=[], k_thorough=[],
+    ),
+    'C03': dict(
+        v=[('u_mb2_core', ['TagIter::new', 'TagIter::next', 'walk_collect', 'BootInformation::tags', 'TagHeader::payload_len',
+                           'TagHeader::lemma_hdr_layout', 'DynSizedStructure::ref_from_slice', 'DynSizedStructure::ref_from_bytes',
+                           'increase_to_alignment', 'lemma_round8_bv', 'lemma_round8_props'])],
+        k_quick=[], k_thorough=[],
+    ),
     'C20': dict(
-        v=[],
+        v=[('u_tagtype', ['TagType::from', 'impl&%*::from', 'lemma_tagtype_roundtrip', 'lemma_tagtype_injective', 'tagtype_roundtrip_exec'])],
         k_quick=['k_tagtype_roundtrip_all_u32', 'k_tagtype_id_wrapper_commutes', 'k_tagtype_equalities_agree', 'k_tagtype_custom_noncanonical', 'k_mbi_magic'],
         k_thorough=[],
     ),
@@ -94,6 +113,18 @@ def assumptions(pid):
 NOT_APPLICABLE = {}
 
 MANIFEST_TEXT = {
+    'C02': dict(
+        text='Proof: Verus verifies the verbatim body of BootInformation::load in TOTAL mode (no panic site may be reachable: it does not assume panics_allowed()) for all header words and all declared sizes, against the postcondition transcribed from the statement: null -> Memory(Null); size < 8 -> ShorterThanHeader; size % 8 != 0 -> MissingPadding; last 8 bytes not (type 0, size 8) -> NoEndTag; otherwise Ok with start address = pointer, size = declared size. Callees (ref_from_ptr, ref_from_slice, BytesRef::try_from, ref_from_bytes, payload_len, has_valid_end_tag) are used through their own verified contracts.',
+        note='Trusted: pointer-extent prelude; the end-tag bytes are related to (type,size) through the uninterpreted decode::<TagHeader> (little-endian decoding of TagHeader is checked by Kani in C04/C03 harnesses); the caller`s unsafe promise (8-aligned header followed by the declared bytes) is the precondition.',
+    ),
+    'C03': dict(
+        text='Proof: Verus verifies the verbatim TagIter::next against the step contract (item at buffer+offset, header = stored header, in-memory size = size rounded up to 8, next offset = offset + round8(size) <= len, exhausted stays exhausted, controlled panic otherwise) for all buffers, generically in the header type; walk_collect proves by a loop invariant with a decreases measure that iterating the real next() yields exactly spec_walk (first tag at payload offset 0 = region offset 8, steps of size rounded up to 8, to the end) and terminates; BootInformation::tags passes exactly the region minus its 8-byte header.',
+        note='Trusted: pointer-extent prelude; derive(Clone) of TagIter (state-only struct: results are a function of (offset, buffer), so clones/fresh iterators repeat). ModuleIter (Iterator::find) is outside Verus`s subset: covered by a bounded Kani harness when present.',
+    ),
+    'C20': dict(
+        text='Proof: (K) loop-free Kani harnesses over full-domain symbolic u32 values prove on the compiled code that u32 -> TagType -> u32 is the identity, numbers 0..=21 map to the specified variants and everything else to Custom, conversions through TagTypeId commute, and all six PartialEq impls agree with numeric equality; MAGIC constants equal the specified values. (V) the verbatim From impls are verified against an independent specification table with lemmas over all u32.',
+        note='Trusted: rustc derive(PartialEq) on TagType; transmute of the repr(transparent) TagTypeId is covered by K only.',
+    ),
     'C14': dict(
         text='Proof: Verus verifies, for all slice lengths, alignments and declared sizes and generically in the header type H, the verbatim bodies of BytesRef::try_from, DynSizedStructure::ref_from_bytes / ref_from_slice and increase_to_alignment against postconditions transcribed from the statement (acceptance condition, error precedence, same address, size_of_val = declared size rounded up to 8 <= slice length, rounding is the least multiple of 8). Kani proves the increase_to_alignment contract on compiled code for all usize, and checks the same statements on the compiled layout for slices <= 32..40 bytes (bounded, not counted).',
         note='Trusted: the pointer-extent prelude (contracts/verus/prelude.rs), field-projection layout of DynSizedStructure (checked by Kani k_dyn_layout), rustc type system. Header equality with the slice bytes is via the uninterpreted decode::<H>; concrete little-endian decoding is checked by Kani (bounded slice length).',
